@@ -238,7 +238,7 @@ def run_phase1(ctx, prop, rule_text, min_events=20):
     tr = ctx.path("trace.ndjson")
     args = ["phase1-trace", "--prop", prop, "--seed", ctx.seed, "--tier", ctx.tier, "--out", tr]
     if ctx.thorough:
-        args += ["--rounds", 6]
+        args += ["--rounds", 15]
     out = ctx.run_bin(binary, args)
     stats = json.loads(out.strip().splitlines()[-1])
     ctx.cov["run_stats"] = stats["stats"]
